@@ -641,7 +641,72 @@ func (fr *frame) chanSend(cv ChanV, v Value, g *Term, pos token.Pos) *Term {
 	return g
 }
 
+// blockHook: when a blocking select / receive has no ready case, other "threads" get to run: the harness function
+// vOnBlock (if the harness package defines one) is called under that guard, a bounded number of times, and the
+// readiness is evaluated again. This is how "the event happens while the waiter is already waiting" is explored.
+func (e *Engine) runBlockHook(g *Term, pos token.Pos) bool {
+	if e.hookDepth >= e.hookLimit {
+		return false
+	}
+	fn := e.hpkg.Func("vOnBlock")
+	if fn == nil {
+		return false
+	}
+	if prune(g) == False {
+		return false
+	}
+	e.hookDepth++
+	e.callFn(fn, nil, nil, g, pos)
+	e.hookDepth--
+	return true
+}
+
 func (fr *frame) execSelect(x *ssa.Select, g *Term) *Term {
+	e := fr.e
+	if x.Blocking {
+		for attempt := 0; attempt < e.hookLimit; attempt++ {
+			anyReady := fr.selectAnyReady(x, g)
+			ng := prune(And(g, Not(anyReady)))
+			if ng == False || !e.runBlockHook(ng, x.Pos()) {
+				break
+			}
+		}
+	}
+	return fr.execSelect1(x, g)
+}
+
+// selectAnyReady: is some case of the select ready (same readiness rules as execSelect1)?
+func (fr *frame) selectAnyReady(x *ssa.Select, g *Term) *Term {
+	var others []*Term
+	hasTimer := false
+	for _, st := range x.States {
+		cv := fr.get(st.Chan).(ChanV)
+		for _, al := range cv.alts {
+			if al.ch == nil {
+				continue
+			}
+			if st.Dir != types.RecvOnly {
+				others = append(others, al.g)
+				continue
+			}
+			if al.ch.timer {
+				hasTimer = true
+				continue
+			}
+			r := al.ch.closed
+			for k := range al.ch.buf {
+				r = Or(r, al.ch.present[k])
+			}
+			others = append(others, And(al.g, r))
+		}
+	}
+	if hasTimer {
+		return True
+	}
+	return Or(others...)
+}
+
+func (fr *frame) execSelect1(x *ssa.Select, g *Term) *Term {
 	e := fr.e
 	e.selectN++
 	n := len(x.States)
@@ -782,6 +847,12 @@ func (e *Engine) globalObj(gl *ssa.Global) *Object {
 	// other globals of the packages under test: run the package initialiser (tolerantly) once
 	// (harness-declared globals start from their zero value)
 	if gl.Pos().IsValid() && strings.HasPrefix(filepath.Base(e.fset.Position(gl.Pos()).Filename), "zz_verif") {
+		if gl.Pkg != nil && !e.verifInitDone[gl.Pkg] {
+			e.verifInitDone[gl.Pkg] = true
+			e.onlyVerifInit = true
+			e.runInitFn(gl.Pkg)
+			e.onlyVerifInit = false
+		}
 		return o
 	}
 	if gl.Pkg != nil && e.wantInit(gl.Pkg) {
@@ -816,6 +887,10 @@ func (e *Engine) wantInit(p *ssa.Package) bool {
 
 func (e *Engine) runInit(p *ssa.Package) {
 	e.initDone[p] = true
+	e.runInitFn(p)
+}
+
+func (e *Engine) runInitFn(p *ssa.Package) {
 	fn := p.Func("init")
 	if fn == nil {
 		return
@@ -835,7 +910,7 @@ func (e *Engine) runInit(p *ssa.Package) {
 					fmt.Printf("note: init of %s stopped early: %s\n", p.Pkg.Path(), ae.msg)
 					return
 				}
-				panic(r)
+				fmt.Printf("note: init of %s stopped early: %v\n", p.Pkg.Path(), r)
 			}
 		}()
 		e.callFn(fn, nil, nil, True, token.NoPos)
